@@ -34,6 +34,9 @@ Line protocol (after the `C06` tag):   <pkg> <Type> <op> <args…>
   torusrt x                  x (C1 ≠ 0), `err:invalid` otherwise      (decompress ∘ compress on unitary x)
   bctorus x₁…x_n / bdtorus y₁…y_n    batch versions; n = 0 or some C1 = 0 ↦ `err:invalid`
   mulacc α n s₁…s_n r₁…r_m   r_i + α·s_i ;  n ≠ m ↦ `panic`
+  dirty d <op> <args…>       the answer of `<op> <args…>` (op ∈ dirtyOps): Go runs it with every receiver holding d before the call;
+                             ksq: first squaring into the dirty receiver, decompression into a second dirty receiver and in place;
+                             kbatch: every slot of the batch held garbage before its first compressed squaring
 -/
 namespace GV.TowerOps
 open GV GV.Alg GV.Pairing
@@ -192,12 +195,31 @@ def gtOp {η : Type} (H : Tow η) (T : Tow (η × η)) (r : Nat) (fixed : String
     | none => "bad-op"
   | _, _ => "bad-op"
 
-def top {η : Type} (H : Tow η) (T : Tow (η × η)) (r : Nat) (fixed : String → Option Int) (op : String) (args : List String) : String :=
-  match elOp T op args with
-  | some s => s
-  | none => gtOp H T r fixed op args
+/-- the ops whose Go method writes into a receiver distinct from its operands -/
+def dirtyOps : List String := ["exp", "cycexp", "expglv", "fixed", "frob", "invu", "sqrt", "select", "nrrt", "ksq", "kbatch"]
 
-def lvl {α : Type} (T : Tow α) (op : String) (args : List String) : String := (elOp T op args).getD "bad-op"
+/-- `dirty d <op> <args…>`: the Go side runs `<op>` with every receiver pre-loaded with the full element `d` instead of the Go
+zero value.  The specification is by value: the receiver's previous contents are not an input, so the answer is the answer
+of `<op> <args…>` (`d` is only required to be an element of the level; `dirty` does not nest). -/
+def withDirty {α : Type} (T : Tow α) (f : String → List String → String) (op : String) (args : List String) : String :=
+  match op, args with
+  | "dirty", d :: op' :: args' =>
+    if dirtyOps.contains op' then
+      match parseEl T d with
+      | some _ => f op' args'
+      | none => "bad-op"
+    else "bad-op"
+  | "dirty", _ => "bad-op"
+  | _, _ => f op args
+
+def top {η : Type} (H : Tow η) (T : Tow (η × η)) (r : Nat) (fixed : String → Option Int) (op : String) (args : List String) : String :=
+  withDirty T (fun op args =>
+    match elOp T op args with
+    | some s => s
+    | none => gtOp H T r fixed op args) op args
+
+def lvl {α : Type} (T : Tow α) (op : String) (args : List String) : String :=
+  withDirty T (fun op args => (elOp T op args).getD "bad-op") op args
 
 /-- the integer a fixed-exponent method is named after (`t` = seed of the curve, `c1 c2` the BW6 cofactor constants) -/
 def fixedExp (t c1 c2 : Int) : String → Option Int
